@@ -103,7 +103,7 @@ def H(text):
 DIRS = [("", "nodir"), (" ASC", "asc"), (" DESC", "desc")]
 NULLS = [("", "dflt"), (" NULLS FIRST", "nf"), (" NULLS LAST", "nl")]
 ORDER_KEYS = [("a", "a"), ("b", "b"), ("s", "s"), ("sum", "a + b"), ("neg", "-a"), ("cmp", "a > 2"), ("eq", "(a = b)"), ("notbetween", "NOT b BETWEEN 2 AND 3"),
-              ("coalesce", "COALESCE(a, 0)"), ("case", "CASE WHEN a > 2 THEN NULL ELSE b END"), ("len", "LENGTH(s)"), ("isnull", "a IS NULL"), ("in", "a IN (1, 3)")]
+              ("coalesce", "COALESCE(a, 0)"), ("coalesce-nullif", "COALESCE(a, NULLIF(b, 2))"), ("coalesce-arith", "COALESCE(a, b * 2)"), ("ifnull-col", "IFNULL(a, b)"), ("case", "CASE WHEN a > 2 THEN NULL ELSE b END"), ("len", "LENGTH(s)"), ("isnull", "a IS NULL"), ("in", "a IN (1, 3)")]
 SHORT_KEYS = [k for k in ORDER_KEYS if k[0] in ("a", "cmp", "neg")]
 WINDOW_FNS = [("rownum", "ROW_NUMBER()"), ("rank", "RANK()"), ("denserank", "DENSE_RANK()"), ("sum", "SUM(b)"), ("count", "COUNT(*)"), ("lag", "LAG(id)"),
               ("first", "FIRST_VALUE(id)"), ("last", "LAST_VALUE(id)")]
@@ -446,13 +446,29 @@ def check_item(item):
                                   "input": {"sql": sql, "src": src, "dst": dst, "db": 0, "ordered": q["ordered"]}})
         return res
     seen = set()
+    ordered = q["ordered"]
+    if q["family"] == "distinct-on":
+        # DISTINCT ON ... ORDER BY returns one row per group IN ORDER BY ORDER (the queries of this family end their sort keys with
+        # the group key's tie-breakers, so that order is total).  The rewrite for targets without DISTINCT ON moves the ORDER BY
+        # into a window: if the translation orders its output at all, that order must be the source's; if it does not, the
+        # order is lost (one syntactic finding per pair, not an engine-dependent row order).
+        try:
+            has_order = sqlglot.parse_one(out, read=dst).args.get("order") is not None
+        except E.SqlglotError:
+            has_order = False
+        if has_order:
+            ordered = True
+        else:
+            res["violations"].append({"key": f"c02:{src}-{dst}:distinct-on:order-dropped",
+                                      "what": f"{sql!r} -> {out!r}: the source orders its result, the translation has no top-level ORDER BY",
+                                      "input": {"sql": sql, "src": src, "dst": dst, "db": 0, "ordered": False, "order_dropped": True}})
     for k, (s, rows) in enumerate(src_rows):
         if s == "err":
             continue
         res["evals"] += 1
         res["nontrivial"] += bool(rows)
         s2, rows2 = execute(dst, k, out)
-        inp = {"sql": sql, "src": src, "dst": dst, "db": k, "ordered": q["ordered"], "out": out}
+        inp = {"sql": sql, "src": src, "dst": dst, "db": k, "ordered": ordered, "out": out}
         if s2 == "err" and q["family"] in LENIENT_ERRORS:
             res["lenient_errors"] = res.get("lenient_errors", 0) + 1
             continue
@@ -460,7 +476,7 @@ def check_item(item):
             kind, what = "error", f"{dst} rejects the transpiled text: {rows2}"
         elif multiset(rows) != multiset(rows2):
             kind, what = "rows", f"rows differ: {src} {str(rows)[:150]} vs {dst} {str(rows2)[:150]}"
-        elif q["ordered"] and rows != rows2:
+        elif ordered and rows != rows2:
             kind, what = "order", f"row order differs: {src} {str(rows)[:150]} vs {dst} {str(rows2)[:150]}"
         else:
             continue
@@ -538,6 +554,9 @@ def replay(entry):
     s1, r1 = execute(i["src"], i["db"], i["sql"])
     if st == "err":
         return {"violated": s1 == "ok", "observed": f"transpile: {out}"}
+    if i.get("order_dropped"):
+        dropped = sqlglot.parse_one(out, read=i["dst"]).args.get("order") is None
+        return {"violated": dropped, "observed": f"{i['sql']!r} -> {out!r}: top-level ORDER BY {'missing' if dropped else 'present'}"}
     s2, r2 = execute(i["dst"], i["db"], out)
     bad = s1 == "ok" and (s2 == "err" or multiset(r1) != multiset(r2) or (i.get("ordered") and r1 != r2))
     return {"violated": bool(bad), "observed": f"{i['src']}: {i['sql']!r} -> {r1!r}; {i['dst']}: {out!r} -> {r2!r}"}
